@@ -75,7 +75,7 @@ let run_orswot (toks : string list) : string =
   | "seq" :: nsrc :: legacy :: ops ->
     let nsrc = nat_of_int (int_of_string nsrc) in
     let legacy = legacy = "1" in
-    let sets = Array.make 4 (Model.empty_set nsrc) in
+    let sets = Array.make 8 (Model.empty_set nsrc) in
     let cur = ref 0 in
     let out = Buffer.create 256 in
     let emit s = if Buffer.length out > 0 then Buffer.add_char out ' '; Buffer.add_string out s in
@@ -96,6 +96,7 @@ let run_orswot (toks : string list) : string =
           | [ "p" ] ->
             let purged, s' = Model.set_purge sets.(!cur) in
             sets.(!cur) <- s'; emit ("p" ^ show_pairs purged)
+          | [ "C"; j ] -> sets.(!cur) <- sets.(int_of_string j)
           | [ "M"; j ] -> sets.(!cur) <- Model.set_merge sets.(!cur) sets.(int_of_string j)
           | [ "F"; j ] ->
             let m, r = Model.set_diff sets.(!cur) sets.(int_of_string j) in
@@ -394,6 +395,58 @@ let run_cluster (toks : string list) : string =
     String.concat " | " outs
   | _ -> "?bad-case"
 
+(* ---- component: clock (C11) ---------------------------------------------- *)
+let run_clock (toks : string list) : string =
+  let show_outs outs =
+    String.concat " "
+      (List.map (function Model.CStamp (_, t) -> h t | Model.CNone -> "-" | Model.CPanic -> "panic") outs)
+  in
+  match toks with
+  | "seq" :: node :: wall0 :: evs ->
+    let c0 = Model.mk_ts (n wall0) Model.N0 (n node) in
+    let q =
+      List.map
+        (fun e ->
+          match String.split_on_char ':' e with
+          | [ "g"; w ] -> Model.CGet (Model.N0, n w)
+          | [ "r"; w; ts ] -> Model.CRegister (n w, n ts)
+          | _ -> failwith "bad ev")
+        evs
+    in
+    (* Clock::register_ts drops stamps of the clock's own node before they reach the actor *)
+    let q' =
+      List.map
+        (fun r ->
+          match r with
+          | Model.CRegister (_, ts) when hex_of_n (Model.ts_node ts) = hex_of_n (n node) -> None
+          | r -> Some r)
+        q
+    in
+    let rec go c rs acc =
+      match rs with
+      | [] -> List.rev acc
+      | None :: rest -> go c rest ("-" :: acc)
+      | Some r :: rest ->
+        (match r with
+         | Model.CGet (_, w) ->
+           (match Model.send w c with
+            | Model.HOk t, c' -> go c' rest (h t :: acc)
+            | _ -> List.rev ("panic" :: acc))
+         | Model.CRegister (w, ts) ->
+           (match Model.recv w c ts with
+            | Model.HPanic, _ -> List.rev ("panic" :: acc)
+            | _, c' -> go c' rest ("-" :: acc)))
+    in
+    ignore show_outs;
+    String.concat " " (go c0 q' [])
+  | [ "conc"; _; node; k; m; wall ] ->
+    let total = int_of_string ("0x" ^ k) * int_of_string ("0x" ^ m) in
+    let c0 = Model.mk_ts (n wall) Model.N0 (n node) in
+    let q = List.init total (fun _ -> Model.CGet (Model.N0, n wall)) in
+    show_outs (Model.clock_run c0 q)
+  | [ "mix"; _; _; _; _; _; _ ] -> "mix"
+  | _ -> "?bad-case"
+
 let () =
   let comp = if Array.length Sys.argv > 1 then Sys.argv.(1) else "" in
   let f =
@@ -403,6 +456,7 @@ let () =
     | "orswot" -> run_orswot
     | "actor" -> run_actor_gen false true
     | "cluster" -> run_cluster
+    | "clock" -> run_clock
     | "actor-legacy-d2" -> run_actor_gen false false
     | _ -> prerr_endline ("unknown component " ^ comp); exit 2
   in
